@@ -218,6 +218,8 @@ func (s *c16Sys) Check() ([]*engine.Violation, int64) {
 		{"list-versions", "GET", "", "versions", nil}, {"list-uploads", "GET", "", "uploads", nil},
 		{"get k", "GET", "k", "", nil}, {"head k", "HEAD", "k", "", nil}, {"get d/x", "GET", "d/x", "", nil}, {"get k range", "GET", "k", "", drv.H("Range", "bytes=0-0")},
 		{"get f", "GET", "f", "", nil},
+		// refusals decided before the route is known (a query string that cannot be parsed)
+		{"get-version bad-escape", "GET", "k", "versionId=%zz", nil}, {"list bad-escape", "GET", "", "prefix=%", nil}, {"list-parts bad-escape", "GET", "k", "uploadId=1%2", nil},
 	}
 	if s.lastVer != "" {
 		reads = append(reads, rd{"get-version", "GET", "k", drv.Q("versionId", s.lastVer), nil}, rd{"head-version", "HEAD", "k", drv.Q("versionId", s.lastVer), nil})
